@@ -2367,7 +2367,7 @@ Proof.
 Qed.
 
 Lemma o_path_trace mask m done s m' done' s' : nofault s ->
-  o_path cs mask m done s = (Some (m', done'), s') ->
+  o_path mask m done s = (Some (m', done'), s') ->
   aextends s s' (map (req_event cs) (if bit mask M_PATH then rds_plan (erase m) else [])).
 Proof.
   intros Hnf. unfold o_path, o_path_full, rds_plan. destruct (bit mask M_PATH).
@@ -2375,7 +2375,7 @@ Proof.
   cbv zeta.
   set (rel := negb (is_some (t_val (m_scheme m))) && negb (m_abs m) && negb (m_host_set m)).
   set (ow := true || negb (N.land done B_PATH =? 0)%N).
-  destruct (remove_dot_segments_m_nf cs rel ow (set_m_segs (map fix_seg (m_segs m)) m) s Hnf) as (segs2 & s2 & E2 & R2 & S2 & L2).
+  destruct (remove_dot_segments_m_nf rel ow (set_m_segs (map fix_seg (m_segs m)) m) s Hnf) as (segs2 & s2 & E2 & R2 & S2 & L2).
   rewrite E2.
   destruct (fix_empty_trail_m (set_m_segs segs2 (set_m_segs (map fix_seg (m_segs m)) m)) s2) as [m3 s3] eqn:E3.
   intros H; injection H as <- <- <-.
@@ -2404,7 +2404,7 @@ Proof.
   pose proof (o_host_state _ _ _ _ _ _ _ E2) as ->.
   destruct (o_user_spec cs (bit mask M_USER_INFO) fix_pct fix_pct_nil m2 0%N s Hnf W2 G2) as (m3 & s3 & E3 & G3 & R3 & W3 & B3 & L3).
   pose proof (o_text_state _ _ _ _ _ _ _ _ _ _ E3) as ->.
-  destruct (o_path_spec cs mask m3 0%N s Hnf W3 G3) as (m4 & s4 & E4 & G4 & R4 & W4 & B4 & L4).
+  destruct (o_path_spec mask m3 0%N s Hnf W3 G3) as (m4 & s4 & E4 & G4 & R4 & W4 & B4 & L4).
   pose proof (st_le_nofault _ _ L4 Hnf) as N4.
   destruct (o_query_spec cs (bit mask M_QUERY) fix_pct fix_pct_nil m4 0%N s4 N4 W4 G4) as (m5 & s5 & E5 & G5 & R5 & W5 & B5 & L5).
   pose proof (o_text_state _ _ _ _ _ _ _ _ _ _ E5) as ->.
@@ -2412,7 +2412,7 @@ Proof.
   pose proof (o_text_state _ _ _ _ _ _ _ _ _ _ E6) as ->.
   pose proof (o_path_trace _ _ _ _ _ _ _ Hnf E4) as T4.
   rewrite E1, E2, E3. unfold o_path in E4.
-  destruct (o_path_full cs mask m3 0%N s) as [[[r mf] df] sf]. injection E4 as -> ->.
+  destruct (o_path_full mask m3 0%N s) as [[[r mf] df] sf]. injection E4 as -> ->.
   rewrite E5, E6. intros H; injection H as <- <- <-.
   unfold normalize_plan_o. rewrite <- R1, <- R2, <- R3. destruct (bit mask M_PATH); exact T4.
 Qed.
